@@ -92,6 +92,13 @@ fn exempt_or(url: impl Strategy<Value = gen::GUrl>) -> impl Strategy<Value = (Op
         20 => url.prop_map(|u| (None, u)),
         1 => gen::case_mask().prop_map(|m| (Some("PUT"), gen::GUrl { path: flip_case("/vmAgentLog", m), query: None })),
         1 => gen::case_mask().prop_map(|m| (Some("POST"), gen::GUrl { path: flip_case("/machine/", m), query: Some(flip_case("comp=telemetrydata", m.rotate_left(9))) })),
+        // neighbours of the two exemptions: NOT exempt (another method, a query on the log upload, one more parameter, a
+        // trailing slash, the telemetry query on another path) - they are signed like everything else
+        2 => (gen::case_mask(), prop::sample::select(vec![
+            ("PUT", "/vmAgentLog", Some("comp=goalstate")), ("PUT", "/vmAgentLog", Some("")), ("PUT", "/vmAgentLog", Some("incarnation=7&type=full")),
+            ("POST", "/vmAgentLog", None), ("PUT", "/vmAgentLog/", None), ("PUT", "/machine/", Some("comp=telemetrydata")),
+            ("POST", "/machine/", Some("comp=telemetrydata&x=1")), ("POST", "/machine", Some("comp=telemetrydata")), ("POST", "/machine/x", Some("comp=telemetrydata")),
+        ])).prop_map(|(m, (method, path, query))| (Some(method), gen::GUrl { path: flip_case(path, m), query: query.map(|q| flip_case(q, m.rotate_left(9))) })),
     ]
 }
 
@@ -124,7 +131,7 @@ pub fn strategy(spoof_range: std::ops::Range<usize>, key_prob: f64) -> impl Stra
         })
 }
 
-pub const RULE_C05: &str = "generator: in 20% of the cases the wall clock of the worker process is moved forward (1 s .. 31 days; 59/60/61 s, hours and days included) between a first request and the request under test, through a preloaded clock_gettime shim that shifts CLOCK_REALTIME for harness and agent alike; attributed, authorised requests (IMDS from root and non-root callers with the elevation flag following the uid or set independently; WireServer/HostGAPlugin from elevated callers; another destination) with no rule sets, a key latched in 70% of the cases, carrying 0-3 client-supplied copies of x-ms-azure-host-claims / -date / -authorization in random letter case, at random positions among the other headers, with values {the opposite or same elevation claim in two spellings, an old and a future RFC 1123 date, a well-formed authorization value with a random MAC, junk}. oracle on the raw bytes captured at the mock host: exactly one claims line whose value states the record's elevation; exactly one date line, RFC 1123, within 5 s of the harness clock; if a key is latched and the request is not signature-exempt exactly one authorization line, none of the client's values, and its MAC verifies (C04). non-trivial: at least one spoofed copy; distinct by hash of the case.";
+pub const RULE_C05: &str = "generator: in 20% of the cases the wall clock of the worker process is moved forward (1 s .. 31 days; 59/60/61 s, hours and days included) between a first request and the request under test, through a preloaded clock_gettime shim that shifts CLOCK_REALTIME for harness and agent alike, and once more between two requests on one keep-alive connection; attributed, authorised requests (IMDS from root and non-root callers with the elevation flag following the uid or set independently; WireServer/HostGAPlugin from elevated callers; another destination) with no rule sets, a key latched in 70% of the cases, carrying 0-3 client-supplied copies of x-ms-azure-host-claims / -date / -authorization in random letter case, at random positions among the other headers, with values {the opposite or same elevation claim in two spellings, an old and a future RFC 1123 date, a well-formed authorization value with a random MAC, junk}. oracle on the raw bytes captured at the mock host: exactly one claims line whose value states the record's elevation; exactly one date line, RFC 1123, within 5 s of the harness clock; if a key is latched and the request is not signature-exempt exactly one authorization line, none of the client's values, and its MAC verifies (C04). non-trivial: at least one spoofed copy; distinct by hash of the case.";
 pub const RULE_C04: &str = "end-to-end half: the same rig with a key always latched and no spoofed headers; query strings from C04's colliding pools, header sets, bodies as Content-Length or chunked. oracle: the mock's raw bytes are parsed by the independent HTTP reader; exactly one authorization line 'Azure-HMAC-SHA256 <guid> <64 hex>'; HMAC_ref(key, canon_ref(received method, de-framed body, received header lines, received target)) equals it for one of the two admissible parameter orders (a transport-generated 'content-length: 0' on a body-less request may be in or out: counted as underspecified). 10% of the requests carry no Host header and 10% are HTTP/1.0 without one (hyper's server accepts both). In 20% of the cases the request is then sent twice on one keep-alive connection with the latched key replaced in between: the second one must announce and verify under the new key. Exempt uploads (PUT /vmAgentLog, POST /machine/?comp=telemetrydata, any letter case) must carry no proxy signature. non-trivial: >= 2 parameters or an escaped/valueless one, or >= 2 client headers, or a body with a line feed; distinct by hash of the case.";
 
 fn days_from_civil(y: i64, m: i64, d: i64) -> i64 {
@@ -329,6 +336,47 @@ pub fn eval(rig: &Rig, case: &Case, stats: &mut Stats, c04_focus: bool) -> Outco
                 return Outcome::fail("signing:exempt-request-carries-proxy-authorization", String::from_utf8_lossy(a).to_string());
             }
         }
+    }
+    // ---- the clock moves while a keep-alive connection stays open: the date is the time of the REQUEST ----
+    if let Some(j) = case.clock_jump_s {
+        let wire = crate::rawhttp::request_head("GET", "/metadata/instance?api-version=2021-02-01", &[("Host".into(), b"169.254.169.254".to_vec()), ("Metadata".into(), b"true".to_vec())]);
+        let mut conn = match rig.open(Some(rig.entry_of(&case.rec)), 0) {
+            Ok(c) => c,
+            Err(e) => return Outcome::fail("rig:cannot-open-connection", e),
+        };
+        for round in 0..2 {
+            if round == 1 && clock_jump(j) {
+                stats.class("wall-clock-moved-forward-on-an-open-keep-alive-connection");
+            }
+            let _ = rig.mock.take_requests();
+            let t0 = SystemTime::now().duration_since(UNIX_EPOCH).unwrap().as_secs() as i64;
+            if conn.send(&wire).is_err() || conn.read("GET", std::time::Duration::from_secs(20)).is_err() {
+                return Outcome::fail("relay:keep-alive-connection-lost", format!("request {} of the keep-alive connection", round + 1));
+            }
+            let t1 = SystemTime::now().duration_since(UNIX_EPOCH).unwrap().as_secs() as i64;
+            let seen = rig.mock.take_requests();
+            if seen.len() != 1 {
+                return Outcome::fail("relay:authorised-request-not-relayed-once", format!("{} requests at the host for request {} of the keep-alive connection", seen.len(), round + 1));
+            }
+            let dates = seen[0].head.get_all(DATE);
+            if dates.len() != 1 {
+                return Outcome::fail("headers:date-line-count", format!("{} date lines at the host (keep-alive request {})", dates.len(), round + 1));
+            }
+            let dtext = String::from_utf8_lossy(dates[0]).to_string();
+            match parse_rfc1123(&dtext) {
+                None => return Outcome::fail("headers:date-not-rfc1123", dtext),
+                Some(t) => {
+                    if t < t0 - 5 || t > t1 + 5 {
+                        return Outcome::fail("headers:date-not-current-time", format!("request {} on a keep-alive connection{}: '{}' = {} outside [{}, {}]", round + 1, if round == 1 { format!(" after the clock moved by {} s", j) } else { String::new() }, dtext, t, t0 - 5, t1 + 5));
+                    }
+                }
+            }
+            let claims = seen[0].head.get_all(CLAIMS);
+            if claims.len() != 1 {
+                return Outcome::fail("headers:claims-line-count", format!("{} claims lines at the host (keep-alive request {})", claims.len(), round + 1));
+            }
+        }
+        crate::rawhttp::close_abortive(conn.stream);
     }
     // ---- the latched key is replaced while a keep-alive connection stays open ----
     if let (Some((g2, k2)), Some((g1, k1)), false) = (&case.rotate_to, &case.key, exempt) {
